@@ -17,6 +17,13 @@ COUNTERS = ("missing_values", "incorrect_values")
 
 
 def check(repo: Repo, rep, tier):
+    _check(repo, rep, tier)
+    from .C14 import state_global
+
+    state_global(repo, rep)
+
+
+def _check(repo: Repo, rep, tier):
     rep.not_decided = "pytest's outcome/exit status themselves; comparisons on values whose __eq__/ordering is inconsistent"
     rep.rule(
         "R-MISSING-COUNTED",
